@@ -17,18 +17,27 @@ Theorem c02_key_determines_sql :
 Proof. exact key_determines_sql. Qed.
 Print Assumptions c02_key_determines_sql.
 
-(* the real tables do NOT satisfy [covers]: visit_bindparam reads bindparam.expanding, which
-   BindParameter._gen_cache_key leaves out.  Witness on the reference excerpt: equal keys, different view *)
+(* the real tables do NOT satisfy [covers]: visit_label reads label.type, which Label._cache_key_traversal
+   leaves out.  Witness on the reference excerpt: equal keys, different view *)
 Theorem c02_key_determines_sql_refuted :
   covers T_ref V_ref = false /\
-  wf T_ref s_9 = true /\ wf T_ref s_expanding = true /\
-  (exists k b1 b2, gen_key T_ref s_9 = Some (k, b1) /\ gen_key T_ref s_expanding = Some (k, b2)) /\
-  view T_ref V_ref s_9 <> view T_ref V_ref s_expanding.
+  wf T_ref s_label_default = true /\ wf T_ref s_label_boolean = true /\
+  (exists k b1 b2, gen_key T_ref s_label_default = Some (k, b1) /\ gen_key T_ref s_label_boolean = Some (k, b2)) /\
+  view T_ref V_ref s_label_default <> view T_ref V_ref s_label_boolean.
 Proof.
   split; [vm_compute; reflexivity|]. split; [vm_compute; reflexivity|]. split; [vm_compute; reflexivity|].
   split; [eexists; eexists; eexists; split; vm_compute; reflexivity | vm_compute; discriminate].
 Qed.
 Print Assumptions c02_key_determines_sql_refuted.
+
+(* bindparam.expanding was such a gap until f7c5c02: it is keyed now, the two statements get different keys *)
+Example c02_expanding_is_keyed :
+  keyed (tget T_ref c_bind) a_expanding = true /\ wf T_ref s_expanding = true /\
+  (forall k1 b1 k2 b2, gen_key T_ref s_9 = Some (k1, b1) -> gen_key T_ref s_expanding = Some (k2, b2) -> k1 <> k2).
+Proof.
+  split; [vm_compute; reflexivity|]. split; [vm_compute; reflexivity|].
+  intros k1 b1 k2 b2 H1 H2. vm_compute in H1, H2. inversion H1; inversion H2; subst. discriminate.
+Qed.
 
 (* ... and it holds for all statements in which the gap attributes G are unset *)
 Theorem c02_key_determines_sql_guarded :
